@@ -53,6 +53,7 @@ static J run_one(const Check &c, const Plan &plan, bool full) {
     if (c.describe) c.describe(plan, r, line);
     J cn = J::obj(); for (auto &p : r.counters) cn.set(p.first, (long long)p.second); line.set("counters", cn);
     line.set("steps", (long long)r.hist.size());
+    line.set("sim_us", (long long)(r.end_world.clock_us - plan.world.clock_us));
     if (full) {
         J hs = J::arr();
         for (auto &e : r.hist) { J o = J::obj(); o.set("seq", e.seq); o.set("thr", e.thr); o.set("op", e.opi); o.set("k", e.k); if (!e.s.empty()) o.set("s", e.s); o.set("a", e.a); o.set("b", e.b); o.set("c", e.c); o.set("ret", e.ret); if (e.err) o.set("err", e.err); if (e.mark) o.set("mark", e.mark); if (!e.data.empty()) o.set("data", e.data.size() > 300 ? e.data.substr(0, 300) + "..." : e.data); hs.push(o); }
